@@ -24,10 +24,11 @@ for sid in sorted(os.listdir(os.path.join(V, "seeded"))):
             print(sid, prop, "PATCH DOES NOT APPLY", flush=True)
             continue
         t0 = time.time()
-        env = dict(os.environ, VERIF_REPO=wt)
+        alt = "/var/tmp/verif-alt.%d" % os.getpid()      # own evidence / replay directory: parallel parts must not read each other's evidence
+        env = dict(os.environ, VERIF_REPO=wt, VERIF_EVIDENCE_DIR=alt + "/evidence", VERIF_REPLAY_DIR=alt + "/replays")
         p = subprocess.run([os.path.join(V, "bin", "check"), prop, "--tier", "quick"], env=env, capture_output=True, text=True)
         secs = time.time() - t0
-        ev = json.load(open("/var/tmp/verif-alt/evidence/%s.json" % prop))
+        ev = json.load(open(alt + "/evidence/%s.json" % prop))
         tab = ev["coverage"]["obligation_table"]
         failed = [(o["id"], o["engine"], o["label"]) for o in tab if o["status"] == "failed"]
         undec = [o["id"] for o in tab if o["status"] == "undecided"]
